@@ -159,6 +159,24 @@ CHECKS = {
         note='Own conversion table vf/oracles/units_ref.py; exchange-rate currencies not exercised. 145 narrowly keyed open findings (the unit machinery of the pinned tree is broadly defective; an existing test pins the design that causes the echo defect).'),
 }
 
+# round 3 additions to the level texts (what the checks cover beyond the round-2 statements)
+ROUND3 = {
+    'C01': 'The rates of the three formulas are taken from the input as written (a run that overwrites one of its own rate parameters while calculating shows).',
+    'C02': 'District heating also with an hourly demand file that covers a leap year (8784 hours).',
+    'C03': 'Well counts are tied to the input (zero injection wells included in the alphabet).',
+    'C04': 'Add-on metrics also for every construction-years > 1 shape (add-ons that cost nothing, the ones the pinned report writer prints); the NPV rate is taken from the input.',
+    'C05': 'Every drawdown case also with an injection wellbore temperature gain; model 3 with mid-range drawdown parameters that bring the curve near its asymptote midway.',
+    'C08': 'Events also include the same plain file asked again through the non-caching client and a rewrite that keeps size and modification time.',
+    'C09': 'One S-DAC-GT run has every S-DAC-GT input off its default.',
+    'C10': 'JSON completeness: every computed output quantity of every participating module (add-ons, S-DAC-GT) has its entry.',
+    'C13': 'Request level: two client requests that name no result file, in all 6 admissible orders of make/serve, with the clock frozen to one instant or real, x 2 assignments.',
+    'C14': 'The electricity base also with a relative result-file name (resolved in a private view of the Monte-Carlo package) for every fail subset x assignment.',
+    'C17': 'Client level: all request histories of length <= 2 (thorough 3) on one HipRaXClient and one rewritten path over 6 contents x modification time x request object x caching.',
+    'C20': 'Output arguments include a name without extension and the same below a directory with a dot in its name; a third starting directory has a dot in its name; stray JSON files are violations.',
+}
+for _k, _v in ROUND3.items():
+    CHECKS[_k]['text'] = CHECKS[_k]['text'].rstrip() + ' ' + _v
+
 
 def manifest():
     checks = []
